@@ -861,6 +861,8 @@ func c13Run(t *testing.T, ops []c13Op, emit bool) *c13Result {
 	client := c13Client{}
 	since := SequenceID{}
 	var prevHeld map[int]bool
+	var prevCached uint64             // cached sequence at the previous pull
+	restamped := map[int]bool{}       // channels some rebuild kept but re-stamped with a later sequence (finding restamped-grant-loses-period)
 	// root-cause bookkeeping for the end-to-end monitor
 	type jump struct{ T, S uint64 }
 	var jumps []jump                    // a page ended with a revocation row whose token is printed without its trigger
@@ -875,6 +877,11 @@ func c13Run(t *testing.T, ops []c13Op, emit bool) *c13Result {
 		if op.Kind != "pull" {
 			if op.Kind == "delrole" {
 				// load first so that the persisted state is valid and the delete's history update can be observed
+				if rawPre := e.rawPrinc(false, c13RoleName(op.Who)); rawPre != nil && rawPre.ChannelInvalSeq != 0 && !rawPre.Deleted {
+					if st, _ := e.loadRoleSt(a, c13RoleName(op.Who)); st != nil {
+						c13NoteRestamps(restamped, rawPre.Channels, st.Chans)
+					}
+				}
 				pre, _ := e.loadRoleSt(a, c13RoleName(op.Who))
 				_, err := e.do(tr, op)
 				if err != nil {
@@ -909,7 +916,28 @@ func c13Run(t *testing.T, ops []c13Op, emit bool) *c13Result {
 					}
 				}
 			}
+			// an admin operation loads (and rebuilds) the principal it changes: re-stamps happen there too
+			var rawBefore *c13RawPrinc
+			switch op.Kind {
+			case "uchans", "uroles":
+				rawBefore = e.rawPrinc(true, "u")
+			case "rchans":
+				rawBefore = e.rawPrinc(false, c13RoleName(op.Who))
+			}
 			rev, err := e.do(tr, op)
+			if rawBefore != nil && rawBefore.ChannelInvalSeq != 0 && !rawBefore.Deleted {
+				var rawAfter *c13RawPrinc
+				if op.Kind == "rchans" {
+					rawAfter = e.rawPrinc(false, c13RoleName(op.Who))
+				} else {
+					rawAfter = e.rawPrinc(true, "u")
+				}
+				if rawAfter != nil {
+					if after, terr := c13TimedSet(rawAfter.Channels, c13ChanID); terr == nil {
+						c13NoteRestamps(restamped, rawBefore.Channels, after)
+					}
+				}
+			}
 			if err == nil && rev != "" && emit {
 				if sdAfter, err2 := e.col.GetDocSyncData(e.ctx, c13DocName(op.Doc)); err2 == nil {
 					c13EmitDocHist(res, sdBefore, &sdAfter)
@@ -958,6 +986,7 @@ func c13Run(t *testing.T, ops []c13Op, emit bool) *c13Result {
 		// rebuilds performed by the loads above: history bookkeeping
 		if rawU != nil && rawU.ChannelInvalSeq != 0 {
 			c13EmitCalc(res, fail, i, emit, "user channels", rawU.ChannelInvalSeq, rawU.Channels, rawU.ChannelHistory, snap.User.Chans, snap.User.Hist, c13ChanID)
+			c13NoteRestamps(restamped, rawU.Channels, snap.User.Chans)
 		}
 		if rawU != nil && rawU.RoleInvalSeq != 0 {
 			c13EmitCalc(res, fail, i, emit, "user roles", rawU.RoleInvalSeq, rawU.RolesSince, rawU.RoleHistory, snap.User.Roles, snap.User.RoleHist, c13RoleID)
@@ -965,6 +994,7 @@ func c13Run(t *testing.T, ops []c13Op, emit bool) *c13Result {
 		for _, rs := range snap.Roles {
 			if raw := rawR[int(rs.ID)]; raw != nil && raw.ChannelInvalSeq != 0 && !raw.Deleted {
 				c13EmitCalc(res, fail, i, emit, "role channels", raw.ChannelInvalSeq, raw.Channels, raw.ChannelHistory, rs.Chans, rs.Hist, c13ChanID)
+				c13NoteRestamps(restamped, raw.Channels, rs.Chans)
 			}
 		}
 		// the specification of the user's access (C03) must agree with what the implementation loaded
@@ -1019,6 +1049,31 @@ func c13Run(t *testing.T, ops []c13Op, emit bool) *c13Result {
 				}
 				if !found {
 					fail(i, "revoked_complete", "lost-channel-not-reported", fmt.Sprintf("op %d: channel %s was held at the previous pull, is not held now, and is not reported by RevokedCollectionChannels(since=%s): %v", i, c13ChanNames[c], since, revP))
+				}
+			}
+		}
+		// granted_periods_cover (Go reflection of C13_granted_periods_cover): a channel the user held at the previous pull is,
+		// at this pull, covered by a period of CollectionChannelGrantedPeriods that contains the previous pull's cached
+		// sequence -- whatever happened to the grant in between.  (A rebuild that re-stamped the kept grant with a later
+		// sequence is the recorded finding restamped-grant-loses-period.)
+		if prevHeld != nil {
+			for c := range prevHeld {
+				per, perr := usr.CollectionChannelGrantedPeriods(e.col.ScopeName, e.col.Name, c13ChanNames[c])
+				if perr != nil {
+					continue
+				}
+				covered := false
+				for _, pp := range per {
+					if pp.StartSeq <= prevCached && prevCached < pp.EndSeq {
+						covered = true
+					}
+				}
+				if !covered {
+					sig := "period-missing-for-held-channel"
+					if restamped[c] {
+						sig = "stale-doc/restamped-grant-loses-period"
+					}
+					fail(i, "granted_periods_cover", sig, fmt.Sprintf("op %d: channel %s was held at the previous pull (cached sequence %d) but no period returned by CollectionChannelGrantedPeriods now contains %d: %v", i, c13ChanNames[c], prevCached, prevCached, c13SortPeriods(per)))
 				}
 			}
 		}
@@ -1410,6 +1465,7 @@ func c13Run(t *testing.T, ops []c13Op, emit bool) *c13Result {
 			}
 		}
 		prevHeld = held
+		prevCached = snap.Cached
 		if caught {
 			heldAtCaughtUp = held
 			cachedAtCaughtUp = snap.Cached
@@ -1547,6 +1603,21 @@ func c13FindHist(h []c13Hist, name uint64) []c13Pair {
 	return nil
 }
 
+// a rebuild kept a grant but gave it a later sequence
+func c13NoteRestamps(restamped map[int]bool, old channels.TimedSet, new_ []c13Pair) {
+	for name, v := range old {
+		id, ok := c13ChanID(name)
+		if !ok {
+			continue
+		}
+		for _, n := range new_ {
+			if n.A == id && n.B > v.Sequence && v.Sequence != 0 {
+				restamped[int(id)-1] = true
+			}
+		}
+	}
+}
+
 // Go reflection of history_records_periods: every lost grant is appended with [granted_at, invalidation_seq)
 func c13CheckHistoryRecords(fail func(int, string, string, string), i int, inval uint64, old, new_ []c13Pair, before, after []c13Hist) {
 	for _, g := range old {
@@ -1680,6 +1751,57 @@ func (g *c13Gen) next() c13Op {
 	}
 }
 
+// histories in the domain of the end-to-end theorem: un-limited pulls, mostly sync-function grants (to the user, to
+// roles, role() grants), few channels so that several sources of the same channel overlap, roles deleted and re-created
+func c13DocGrantHistory(r *vRand) []c13Op {
+	var ops []c13Op
+	n := 10 + r.Intn(16)
+	sub := func(from, cnt, pct int) []int {
+		var out []int
+		for i := from; i < from+cnt; i++ {
+			if r.Chance(pct) {
+				out = append(out, i)
+			}
+		}
+		return out
+	}
+	for i := 0; i < n; i++ {
+		p := r.Intn(100)
+		switch {
+		case p < 45:
+			op := c13Op{Kind: "put", Doc: 1 + r.Intn(3), Chans: sub(1, 2, 50)}
+			if r.Chance(60) {
+				g := c13Grant{V: sub(1, 2, 60)}
+				if r.Chance(45) {
+					g.Role, g.To = true, 1+r.Intn(c13NRoles)
+				}
+				if len(g.V) > 0 {
+					op.Acc = []c13Grant{g}
+				}
+			}
+			if r.Chance(25) {
+				if v := sub(1, c13NRoles, 50); len(v) > 0 {
+					op.Rol = []c13Grant{{V: v}}
+				}
+			}
+			ops = append(ops, op)
+		case p < 50:
+			ops = append(ops, c13Op{Kind: "del", Doc: 1 + r.Intn(3)})
+		case p < 58:
+			ops = append(ops, c13Op{Kind: "uchans", Set: sub(1, 2, 40)})
+		case p < 64:
+			ops = append(ops, c13Op{Kind: "uroles", Set: sub(1, c13NRoles, 50)})
+		case p < 72:
+			ops = append(ops, c13Op{Kind: "rchans", Who: 1 + r.Intn(c13NRoles), Set: sub(1, 2, 40)})
+		case p < 77:
+			ops = append(ops, c13Op{Kind: "delrole", Who: 1 + r.Intn(c13NRoles)})
+		default:
+			ops = append(ops, c13Op{Kind: "pull"})
+		}
+	}
+	return append(ops, c13Op{Kind: "pull"})
+}
+
 func c13RandomHistory(r *vRand, adv bool) []c13Op {
 	g := &c13Gen{r: r, adv: adv}
 	n := 10 + r.Intn(25)
@@ -1741,6 +1863,12 @@ func c13Corpus() map[string][]c13Op {
 		"user_chan_lost_doc_updated": {uch(1), P(1, 1), pull(0), P(1, 1), uch(), pull(0)},
 		"two_grants_paged":            {P(1, 1), P(2, 1), P(3, 2), P(4, 2), uch(1), pull(1), uch(1, 2), pull(1), pull(1), pull(1), pull(1), pull(0)},
 		"regrant_after_move":   {uch(1), P(1, 1), pull(0), uch(), P(1, 2), uch(1), pull(0)},
+		// sync-function grants: two documents granting the same channel, a grant to a role the user gets through role(), a
+		// granting document deleted, a role's document grant with the role deleted in between
+		"two_docs_grant_same_channel": {P(1, 1), {Kind: "put", Doc: 2, Chans: []int{2}, Acc: []c13Grant{{V: []int{1}}}}, {Kind: "put", Doc: 3, Chans: []int{2}, Acc: []c13Grant{{V: []int{1}}}}, pull(0), P(2, 2), pull(0), P(3, 2), pull(0)},
+		"doc_role_and_role_channel":   {rch(1), {Kind: "put", Doc: 2, Chans: []int{2}, Acc: []c13Grant{{Role: true, To: 1, V: []int{1}}}, Rol: []c13Grant{{V: []int{1}}}}, P(1, 1), pull(0), P(1, 1), {Kind: "del", Doc: 2}, pull(0)},
+		"doc_grant_to_role_role_deleted": {rch(1), uro(1), {Kind: "put", Doc: 2, Chans: []int{2}, Acc: []c13Grant{{Role: true, To: 1, V: []int{1}}}}, P(1, 1), pull(0), P(1, 1), {Kind: "delrole", Who: 1}, pull(0)},
+		"doc_grant_moved_between_docs":   {P(1, 1), {Kind: "put", Doc: 2, Chans: []int{2}, Acc: []c13Grant{{V: []int{1}}}}, pull(0), {Kind: "put", Doc: 3, Chans: []int{2}, Acc: []c13Grant{{V: []int{1}}}}, P(2, 2), P(1, 1), pull(0), {Kind: "del", Doc: 3}, pull(0)},
 		// channel A from two sources of the same principal (a granting document, then an explicit grant): when the document
 		// stops granting, the rebuild keeps A but re-stamps it with the later sequence; the period before is in no history
 		"restamped_grant_loses_period": {P(1, 1), {Kind: "put", Doc: 2, Chans: []int{2}, Acc: []c13Grant{{V: []int{1}}}}, pull(0), P(1, 2), uch(1), P(2, 2), uch(), pull(0)},
@@ -2213,6 +2341,9 @@ func TestVerifC13(t *testing.T) {
 	}
 	for i := 0; i < vBudget(8, 80); i++ {
 		history("paged_revocation", "paged_revocation", c13PagedRevocationHistory(rnd), true)
+	}
+	for i := 0; i < nRand/2; i++ {
+		history("doc_grants", "doc_grants", c13DocGrantHistory(rnd), true)
 	}
 
 	// (iv) the component functions on synthetic principals
